@@ -14,14 +14,14 @@ func init() { generators["C08"] = genC08 }
 
 // ---- what a party's conversation still holds ----
 type holdings struct {
-	exps     []int    // indices (into the party's draws) of DH private exponents found in the graph
-	rs       []int    // AKE commitment keys r
-	smps     []int    // SMP exponents
-	derived  []string // names of derived secrets found (session keys, AKE keys)
-	texts    []string // texts given to Send that are found, in the order they were given
-	dropped  []string // sites of buffers that held a secret, are no longer reachable and were not zeroed
+	exps                 []int    // indices (into the party's draws) of DH private exponents found in the graph
+	rs                   []int    // AKE commitment keys r
+	smps                 []int    // SMP exponents
+	derived              []string // names of derived secrets found (session keys, AKE keys)
+	texts                []string // texts given to Send that are found, in the order they were given
+	dropped              []string // sites of buffers that held a secret, are no longer reachable and were not zeroed
 	smpNonNil, akeNonNil bool
-	where    map[string][]string
+	where                map[string][]string
 }
 
 type secretBook struct {
